@@ -122,3 +122,25 @@ VARIANTS += [
  V("c12-v1-watermark-after-sync", "C12", "C12.V1", "objstorage/objstorageprovider/vfs.go",
    "			p.mu.local.hotTier.objChangeCounterLastSync = hot.objChangeCounter", "			p.mu.local.hotTier.objChangeCounterLastSync = p.mu.local.hotTier.objChangeCounter"),
 ]
+
+VARIANTS += [
+ V("c31-t1-reintroduce-F3", "C31", "C31.T1", "batchrepr/reader.go",
+   "		base.InternalKeyKindDeleteSized, base.InternalKeyKindExcise, base.InternalKeyKindIngestSSTWithBlobs,\n		base.InternalKeyKindSetWithDelete:", "		base.InternalKeyKindDeleteSized, base.InternalKeyKindExcise, base.InternalKeyKindIngestSSTWithBlobs:"),
+ V("c31-t1-batchiter-drops-deletesized", "C31", "C31.T1", "batch.go",
+   "		InternalKeyKindDeleteSized, InternalKeyKindSetWithDelete:\n		_, value, ok := batchrepr.DecodeStr(data[keyEnd:])", "		InternalKeyKindSetWithDelete:\n		_, value, ok := batchrepr.DecodeStr(data[keyEnd:])"),
+ V("c31-t1-reader-value-for-singledelete", "C31", "C31.T1", "batchrepr/reader.go",
+   "	case base.InternalKeyKindSet, base.InternalKeyKindMerge, base.InternalKeyKindRangeDelete,\n		base.InternalKeyKindRangeKeySet,", "	case base.InternalKeyKindSet, base.InternalKeyKindMerge, base.InternalKeyKindRangeDelete, base.InternalKeyKindSingleDelete,\n		base.InternalKeyKindRangeKeySet,"),
+ V("c31-o1-kind-range-check-removed", "C31", "C31.O1", "batchrepr/reader.go",
+   "	if kind > base.InternalKeyKindMax {", "	if kind > base.InternalKeyKindMax && len(*r) > 1<<20 {"),
+]
+
+VARIANTS += [
+ V("c23-k4-reintroduce-F4", "C23", "C23.K4", "internal/manifest/version_edit.go",
+   "		if customFields || x.Meta.HasRangeKeys {", "		if customFields {"),
+ V("c23-k1-decode-drops-tag", "C23", "C23.K1", "internal/manifest/version_edit.go",
+   "		case tagPrevLogNumber:", "		case 9999:"),
+ V("c23-k2-encode-drops-field", "C23", "C23.K2", "internal/manifest/version_edit.go",
+   "	if v.ObsoletePrevLogNum != 0 {\n		e.writeUvarint(tagPrevLogNumber)\n		e.writeUvarint(v.ObsoletePrevLogNum)\n	}", ""),
+ V("c23-b1-reintroduce-F11", "C23", "C23.B1", "internal/manifest/version_edit.go",
+   "						blobReferences = make([]BlobReference, 0, min(n, 16))", "						blobReferences = make([]BlobReference, 0, n)"),
+]
